@@ -496,7 +496,7 @@ def main(tier, seed):
                        "LFIProblem/run_lfi), and normalize=True with propagate_evidence=True (defaults of the `problog lfi` command line)",
                        "floats are reals; thresholds 1e-6 / 1e-15 of the real code are path decisions; log-space mode (ExampleEvaluatorLog), "
                        "non-ground tunable clauses, leak probabilities and continuous distributions are outside the claim"]
-    n = 24 if tier == "quick" else 600
+    n = 24 if tier == "quick" else 300
     items = []
     for i in range(n):
         for normalize in (True, False):
